@@ -271,6 +271,23 @@ func (g *gen) genCore(profile string) {
 			op.Ctx, op.NoSendWait, op.FreezeClock = "bg", true, true
 			th.Ops = append(th.Ops, op)
 		}
+		if profile == "C06" && !nswProbe && g.chance(0.2) {
+			// defer-cancel burst: send-waiting one-way calls whose context is cancelled as soon as
+			// the stub has returned, interleaved with no-send-waiting calls under a Background
+			// context whose messages are then still queued or in flight on the same nodes
+			ow := stubsOf("mcast", "ucast")
+			for k := 3 + g.r.IntN(6); k > 0; k-- {
+				s := ow[g.r.IntN(len(ow))]
+				op := g.callOp(th.Mgr, s, 0, 0)
+				if k%2 == 0 {
+					op.Ctx, op.NoSendWait = "bg", true
+				} else {
+					op.Ctx, op.CancelW, op.CancelAfter, op.NoSendWait = "cancel", 1e-9, true, false
+				}
+				th.Ops = append(th.Ops, op)
+			}
+			nOps = g.r.IntN(3)
+		}
 		for i := 0; i < nOps; i++ {
 			s := pool[g.r.IntN(len(pool))]
 			if profile == "C06" && !s.PerNode && g.chance(0.5) {
